@@ -175,6 +175,59 @@ fn client_reply(bytes: &[u8], which: u64, seed: u64) -> (bool, bool) {
     (panicked, done && done2)
 }
 
+/// (e): well-formed replies to the node's own requests whose only peculiarity is WHEN they arrive: one reply of the i-th
+/// lookup is delayed by delays[i] ms (on time, just below / above the 500 ms request timeout, seconds late). The node must
+/// stay alive, answer a ping and complete a fresh call afterwards.
+fn reply_timing(delays: &[u64], seed: u64) -> (bool, bool, bool) {
+    use std::cell::RefCell;
+    use std::rc::Rc;
+    let mut sim = Sim::new(seed, NetCfg { lat_min_ms: 1, lat_max_ms: 2, ..Default::default() });
+    let ids: Vec<[u8; 20]> = (0..3).map(|i| [i as u8 + 3; 20]).collect();
+    // (current lookup, whether its delayed reply has been scheduled)
+    let k = Rc::new(RefCell::new((0usize, false)));
+    let armed = Rc::new(RefCell::new(false));
+    let (k2, armed2, dl) = (k.clone(), armed.clone(), delays.to_vec());
+    let policy: Policy = Box::new(move |_me, _m, _w| {
+        if !*armed2.borrow() {
+            return Reply::Default;
+        }
+        // the first request of the i-th lookup is answered after delays[i] ms, everything else promptly
+        let (i, used) = *k2.borrow();
+        if used {
+            return Reply::Default;
+        }
+        k2.borrow_mut().1 = true;
+        match dl.get(i) {
+            Some(&d) => Reply::DefaultAfter(d),
+            None => Reply::Default,
+        }
+    });
+    let net = FakeNet::install(&mut sim, &ids, policy);
+    let c = sim.add_node(NodeOpts::server(private_ip(9), &net.bootstrap()));
+    sim.run_for(1500);
+    *armed.borrow_mut() = true;
+    let mut all_done = true;
+    // one lookup per scheduled reply (3 peers answer each lookup: the schedule spreads over the lookups), spaced out so that
+    // late replies of one lookup land during the next ones
+    for i in 0..delays.len().max(1) {
+        *k.borrow_mut() = (i, false);
+        let mut call = sim.call_get(c, GetKind::FindNode, [0x40 + i as u8; 20], "find");
+        sim.poke(c);
+        all_done &= sim.run_calls(&mut [&mut call], 30_000);
+        // replies up to 2.5 s late are read before the next lookup starts; later ones land during the following lookups
+        sim.run_for(2700);
+    }
+    sim.run_for(7000);
+    let mut again = sim.call_get(c, GetKind::Immutable, crypto::immutable_target(b"after timing"), "get");
+    sim.poke(c);
+    all_done &= sim.run_calls(&mut [&mut again], 30_000);
+    let from = SocketAddrV4::new(Ipv4Addr::new(10, 9, 1, 1), 5000);
+    let pong = sim.exchange(c, from, &krpc::ping(77, &[9u8; 20], false).encode());
+    let answers = !pong.is_empty();
+    let panicked = sim.nodes[c].panicked;
+    (panicked, all_done, answers && !panicked)
+}
+
 /// (d): error replies to real API puts through the real async wrappers
 fn api_errors(out: &mut Out, seed: u64, n: &mut u64) {
     for code in [201i64, 203, 205, 206, 207, 301, 302, 0, -1, 999] {
@@ -227,6 +280,11 @@ fn replay(args: &Args) -> i32 {
     let mut n = 0u64;
     if mode == "api" {
         api_errors(&mut out, seed, &mut n);
+    } else if mode == "reply_timing" {
+        let delays: Vec<u64> = args.str("replay-delays", "").split(',').filter_map(|x| x.parse().ok()).collect();
+        let (panicked, done, alive) = reply_timing(&delays, seed);
+        out.line(&json!({"e":"shape","id":0,"mode":"reply_timing","delays":delays,"panic":panicked,"alive_after":alive,"call_done":done}));
+        n = 1;
     } else {
         let bytes = crate::bencode::unhex(&args.str("replay-bytes", ""));
         let b2 = bytes.clone();
@@ -341,6 +399,37 @@ pub fn run(args: &Args) -> i32 {
                 n += 1;
             }
         }
+    }
+    // (e) reply timing: every sequence of up to three delays (bounded-exhaustive), longer random ones in the thorough tier
+    {
+        const D: [u64; 8] = [5, 450, 505, 560, 700, 900, 2500, 6000];
+        let mut seqs: Vec<Vec<u64>> = vec![];
+        for a in D {
+            seqs.push(vec![a]);
+            for b in D {
+                seqs.push(vec![a, b]);
+                for c in D {
+                    seqs.push(vec![a, b, c]);
+                }
+            }
+        }
+        if thorough {
+            for _ in 0..600 {
+                let len = 4 + rng.below(5) as usize;
+                seqs.push((0..len).map(|_| D[rng.below(8) as usize]).collect());
+            }
+        }
+        for (i, dl) in seqs.iter().enumerate() {
+            if !thorough && dl.len() == 3 && i % 3 != 0 {
+                continue;
+            }
+            let (panicked, done, alive) = reply_timing(dl, seed ^ i as u64);
+            if panicked || !done || !alive || i % 97 == 0 {
+                out.line(&json!({"e":"shape","id":n,"mode":"reply_timing","delays":dl,"panic":panicked,"alive_after":alive,"call_done":done}));
+            }
+            n += 1;
+        }
+        out.line(&json!({"e":"shape","id":n,"mode":"reply_timing_summary","count":seqs.len(),"panic":false,"alive_after":true,"call_done":true}));
     }
     api_errors(&mut out, seed, &mut n);
     // pure random datagrams
